@@ -60,10 +60,11 @@ def build_sdl():
     args = ", ".join(f"{n}: {t}" for n, t in leaf)
     out.append(f"type Query {{\n  obj: Obj\n  node: Node\n  nodes: [Node!]\n  u: U\n  echo({args}): Int\n"
                f"  in1(i: In, l: [In!], r: InReq): Int\n}}")
+    out.append(f"type Subscription {{\n  echo({args}): Int\n  in1(i: In, l: [In!], r: InReq): Int\n}}")
     return "\n\n".join(out) + "\n", leaf
 
 
-def build_queries(leaf):
+def build_queries(leaf, subscriptions=False):
     allf = " ".join(n for n, _t in leaf)
     some = " ".join(n for n, _t in leaf[2::5])
     q = [f"query Results {{ obj {{ {allf} child {{ {some} ...ObjFrag child {{ sb0 }} }} kids {{ sd2 ...ObjFrag }} }} }}",
@@ -77,6 +78,12 @@ def build_queries(leaf):
         q.append(f"query Echo{s}(" + ", ".join(f"${n}: {t}" for n, t in vs) + ") { echo(" +
                  ", ".join(f"{n}: ${n}" for n, _t in vs) +
                  ", " + ", ".join(f"{n}: {dummy(t)}" for n, t in leaf if t.endswith("!") and not n.startswith(s.lower())) + ") }")
+    if subscriptions:      # async clients only: the same arguments through the graphql-transport-ws subscribe payload
+        q.append("subscription SubInputs($i: In, $l: [In!], $r: InReq) { in1(i: $i, l: $l, r: $r) }")
+        vs = [(n, t) for n, t in leaf if n.startswith("sd")]
+        q.append("subscription SubEchoSD(" + ", ".join(f"${n}: {t}" for n, t in vs) + ") { echo(" +
+                 ", ".join(f"{n}: ${n}" for n, _t in vs) +
+                 ", " + ", ".join(f"{n}: {dummy(t)}" for n, t in leaf if t.endswith("!") and not n.startswith("sd")) + ") }")
     return "\n\n".join(q) + "\n"
 
 
@@ -247,7 +254,7 @@ def run(ctx):
     scs = []
     for snake in (True, False):
         for async_ in (True, False):
-            scs.append(Scenario(seed=len(scs), sdl=sdl, queries=queries,
+            scs.append(Scenario(seed=len(scs), sdl=sdl, queries=build_queries(leaf, subscriptions=async_),
                                 config={"convert_to_snake_case": snake, "async_client": async_, "scalars": cfg_sc},
                                 files={"vscal.py": argenc.VSCAL + VSCAL_EXTRA}))
     ssx = argenc.schema_sx(gs, cfg_sc)
@@ -415,6 +422,10 @@ def drive(ctx, g, gs, ssx, leaf, n_rounds):
                     r = g.driver.ask({"cmd": "call_args", "method": scen.method_name("Echo" + s), "args": args,
                                       "intended": intended})
                     rows.append(("echo", (s, amode), per_var, r))
+                    if s == "SD" and g.sc.config["async_client"]:
+                        r = g.driver.ask({"cmd": "call_args", "method": scen.method_name("SubEchoSD"), "args": args,
+                                          "intended": intended})
+                        rows.append(("echo", (s, amode + ":ws"), per_var, r))
             # ---- input models
             gen.depth_left = 3
             i_sx, i_enc, i_int, i_occ = gen.arg(gs.type_map["In"], "full" if mode == "full" else "rand", True)
@@ -425,6 +436,9 @@ def drive(ctx, g, gs, ssx, leaf, n_rounds):
             intended = {"i": i_int, "l": [x[2] for x in l_items], "r": r_int}
             r = g.driver.ask({"cmd": "call_args", "method": "inputs", "args": args, "intended": intended})
             rows.append(("inputs", mode, ([i_sx] + [x[0] for x in l_items] + [r_sx], i_occ + [o for x in l_items for o in x[3]] + r_occ), r))
+            if g.sc.config["async_client"]:
+                r = g.driver.ask({"cmd": "call_args", "method": scen.method_name("SubInputs"), "args": args, "intended": intended})
+                rows.append(("inputs", mode + ":ws", ([i_sx] + [x[0] for x in l_items] + [r_sx], i_occ + [o for x in l_items for o in x[3]] + r_occ), r))
     finally:
         g.stop()
     return rows
@@ -477,7 +491,7 @@ def evaluate(ctx, g, gs, ssx, rows):
     mres = iter(model.batch(ENGINE, cmds))
     for kind, mode, payload, r in rows:
         run.count()
-        run.dist("calls", kind)
+        run.dist("calls", kind + (":ws-subscribe" if (isinstance(mode, str) and mode.endswith(":ws")) or (isinstance(mode, tuple) and mode[1].endswith(":ws")) else ""))
         rep = {"config": g.sc.config, "operation": kind, "mode": mode, "observed": r}
         log = [[e[1], canon_logged(e[2])] for e in (r.get("log_call") or [])]
         ser_log = [e for e, raw in zip(log, r.get("log_call") or []) if raw[0] == "ser"]
